@@ -355,7 +355,10 @@ def _targets_cache(t):
 
 
 def align(src, tree, filename='<c05>'):
-    top = symtable.symtable(src, filename, 'exec')
+    try:
+        top = symtable.symtable(src, filename, 'exec')
+    except SyntaxError as e:          # the compiler rejects what ast.parse accepts (bad __future__ import, return outside function ...)
+        raise Unsupported('compiler rejects the module: %s' % e.msg)
     sm = ScopeMap(top)
     sm.visit(tree)
     if sm.stack[0][1].rest():
